@@ -341,7 +341,7 @@ pub fn check_file_sequence(fgi: usize, bgi: usize, data: &[u8]) -> Result<(), (S
 }
 
 /// The scripted writer of C06 behind a mutex, so that it can sit in `Box<dyn Write + Send + Sync>`.
-pub struct SendScripted(pub std::sync::Arc<std::sync::Mutex<Shared>>);
+pub struct SendScripted(pub std::sync::Arc<std::sync::Mutex<Shared>>, pub bool);
 
 impl Write for SendScripted {
     fn write(&mut self, buf: &[u8]) -> std::io::Result<usize> {
@@ -362,6 +362,10 @@ impl Write for SendScripted {
     }
     fn flush(&mut self) -> std::io::Result<()> {
         self.0.lock().expect("lock").flushes += 1;
+        if self.1 {
+            // a device that cannot be flushed (a coloured write is not a flush: what it returns must not depend on this)
+            return Err(std::io::Error::new(ErrorKind::Other, "flush failed"));
+        }
         Ok(())
     }
 }
@@ -370,17 +374,18 @@ pub fn check_scripted(fgi: usize, bgi: usize, data: &[u8], script: &[Step], st: 
     let (fg, bg) = (color(fgi), color(bgi));
     // the three trait-object kinds that have their own impl, chosen by the case (deterministic, so replays agree)
     let shared = std::sync::Arc::new(std::sync::Mutex::new(Shared { script: script.to_vec(), ..Default::default() }));
+    let bad_flush = (fgi + bgi + script.len()) % 4 == 1;
     let ret = match (fgi + 2 * bgi + script.len() + data.len()) % 3 {
         0 => {
-            let mut w: Box<dyn Write> = Box::new(SendScripted(shared.clone()));
+            let mut w: Box<dyn Write> = Box::new(SendScripted(shared.clone(), bad_flush));
             w.write_colored(fg, bg, data)
         }
         1 => {
-            let mut w: Box<dyn Write + Send> = Box::new(SendScripted(shared.clone()));
+            let mut w: Box<dyn Write + Send> = Box::new(SendScripted(shared.clone(), bad_flush));
             w.write_colored(fg, bg, data)
         }
         _ => {
-            let mut w: Box<dyn Write + Send + Sync> = Box::new(SendScripted(shared.clone()));
+            let mut w: Box<dyn Write + Send + Sync> = Box::new(SendScripted(shared.clone(), bad_flush));
             w.write_colored(fg, bg, data)
         }
     };
